@@ -265,7 +265,7 @@ type Rec struct {
 // Append records a received event; events of the establishment phase (initial event of a single-resource watch,
 // bootstrap contents) are not log events even if their value coincides with one.
 func (r *Rec) Append(e RecEv) {
-	if r.FromIdx == -2 && r.Tail == 0 {
+	if r.FromIdx == -2 && r.Tail == 0 && !r.AnyStart { // (a watch started from a bookmark, forged or not, has no establishment phase)
 		switch {
 		case r.Kind == "single" && len(r.Events) == 0:
 			e.Idx = -1
